@@ -335,8 +335,16 @@ func mkConfig(c *eCfg) engine.Config {
 }
 
 // one request on engine en; persisted => Finish afterwards
+// callerLang: when set, every request is made with a context that already carries this language (a
+// front end's default); the engine must override it with the session's own language.  Only set for
+// sessions that always have a language (a configured, resolvable code and no function that changes it).
+var callerLang string
+
 func doRequest(en *engine.DefaultEngine, input []byte, finish bool) (cont bool, exec string, out []byte, flush string, pval interface{}) {
 	ctx := context.Background()
+	if callerLang != "" {
+		ctx = context.WithValue(ctx, "Language", lang.Language{Code: callerLang, Name: "caller"})
+	}
 	exec, flush = "OSPanic", "OSPanic"
 	panicked, v := hx.Recover(func() {
 		c, err := en.Exec(ctx, input)
@@ -373,6 +381,11 @@ func runEngineCase(a *eApp, c *eCfg, persisted bool, inputs [][]byte) ([]eStep, 
 	if err != nil {
 		return nil, err
 	}
+	callerLang = ""
+	if (c.Lang == "nor" || c.Lang == "swa") && !appSetsLang(a, c) && len(a.Code)%2 == 1 {
+		callerLang = "eng"
+	}
+	defer func() { callerLang = "" }()
 	var steps []eStep
 	cfg := mkConfig(c)
 	mk := func() *engine.DefaultEngine {
@@ -446,6 +459,25 @@ func runEngineCase(a *eApp, c *eCfg, persisted bool, inputs [][]byte) ([]eStep, 
 	return steps, nil
 }
 
+func appSetsLang(a *eApp, c *eCfg) bool {
+	has := func(fs []eFres) bool {
+		for _, f := range fs {
+			for _, x := range f.Set {
+				if x == state.FLAG_LANG {
+					return true
+				}
+			}
+		}
+		return false
+	}
+	for _, fs := range a.Fn {
+		if has(fs) {
+			return true
+		}
+	}
+	return has(c.First)
+}
+
 // refusedInput mirrors the engine's documented refusal: longer than the input limit, or
 // non-empty and not matching the builtin input pattern (first byte alphanumeric after an optional
 // '+', no line feed)
@@ -500,7 +532,7 @@ func pick[T any](r *rand.Rand, l []T) T { return l[r.Intn(len(l))] }
 var eNodePool = []string{"foo", "bar", "baz", "quux", "n1", "end1"}
 var eSymPool = []string{"aa", "bb", "cc", "dd"}
 var eSelPool = []string{"0", "1", "2", "3", "9", "00", "a", "x1", "11", "22"}
-var eLangCodes = []string{"nor", "no", "swa", "eng", "xx", "zzzz", "", "fra", "swh", "cmn", "swh"}
+var eLangCodes = []string{"nor", "no", "swa", "eng", "xx", "zzzz", "", "fra", "swh", "cmn", "swh", "english", "norsk", "swahili"}
 
 func (g *egen) sel() string {
 	if g.r.Intn(8) == 0 {
@@ -866,8 +898,10 @@ func genHistory(r *rand.Rand, sels []string, n int) [][]byte {
 			in = pick(r, []string{"11", "22", "11", "11"})
 		case k < 78:
 			in = pick(r, eSelPool)
-		case k < 83:
+		case k < 82:
 			in = ""
+		case k < 83: // the longest inputs that are still accepted
+			in = strings.Repeat("1", 254+r.Intn(2))
 		case k < 90:
 			in = pick(r, []string{"zz", "q", "+1", "7 7", "abc'def", "50%", "100%d", "7%%s"})
 		case k < 97:
@@ -1026,6 +1060,15 @@ var engineCorpus = []corpusCase{
 		fn: map[string][]eFres{"bye1": st1(strings.Repeat("b", 26)), "bye2": st1(strings.Repeat("b", 27)), "bye3": st1(strings.Repeat("b", 28))}, cfg: eCfg{FlagCount: 1, Out: 30}, inputs: []string{"", "2", "", "1", "", "3"}},
 	{name: "percent-in-menu", nodes: [][3]string{{"root", "MOUT sale 1; MOUT salt 2; MOUT plain 3; MSINK; MNEXT nxt 11; MPREV prv 22; HALT; INCMP > 11; INCMP < 22; INCMP foo *", "root"}, {"foo", "MOUT sale 0; HALT; INCMP _ 0", "foo"}, {"_catch", "HALT; INCMP _ *", "catch"}},
 		menu: []kv{{"sale_menu", "20% sale"}, {"salt_menu", "salt %s and %d"}}, cfg: eCfg{FlagCount: 1, Out: 36}, inputs: []string{"", "11", "22", "x", "0"}},
+	{name: "reload-after-next", nodes: [][3]string{{"root", "LOAD sk 0; MAP sk; LOAD cnt 10; RELOAD cnt; MAP cnt; MNEXT nxt 11; MPREV prv 22; HALT; INCMP > 11; INCMP < 22", "r {{.cnt}} {{.sk}}"}, {"_catch", "MOUT back 0; HALT; INCMP _ 0", "catch"}},
+		fn: map[string][]eFres{"sk": st1("one\ntwo\nthree\nfour\nfive\nsix"), "cnt": []eFres{{Content: "c1"}, {Content: "c2"}, {Content: "c3"}, {Content: "c4"}, {Content: "c5"}}}, cfg: eCfg{FlagCount: 1, Out: 32}, inputs: []string{"", "11", "11", "22", "x"}},
+	{name: "lang-long-code", nodes: [][3]string{{"root", "LOAD lang1 0; HALT; INCMP foo 1", "root"}, {"foo", "RELOAD lang1; HALT; INCMP _ 0", "foo"}, {"_catch", "HALT; INCMP _ *", "catch"}},
+		tplx: []kv{{"root_nor", "rot"}, {"foo_nor", "fu"}, {"root_eng", "root-en"}, {"foo_eng", "foo-en"}}, fn: map[string][]eFres{"lang1": []eFres{{Content: "nor", Set: []uint32{7}}, {Content: "english", Set: []uint32{7}}, {Content: "norsk", Set: []uint32{7}}}}, cfg: eCfg{FlagCount: 1}, inputs: []string{"", "1", "0", "1", "0"}},
+	{name: "selector-255", nodes: [][3]string{{"root", "LOAD sk 0; MAP sk; MNEXT nxt " + strings.Repeat("7", 255) + "; MPREV prv 22; HALT; INCMP > " + strings.Repeat("7", 255) + "; INCMP < 22", "r {{.sk}}"}, {"_catch", "MOUT back 0; HALT; INCMP _ 0", "catch"}},
+		fn: map[string][]eFres{"sk": st1(strings.Repeat("row\n", 60) + "end")}, cfg: eCfg{FlagCount: 1, Out: 300}, inputs: []string{"", strings.Repeat("7", 255), "22", strings.Repeat("7", 254)}},
+	{name: "caller-context-language", nodes: [][3]string{{"root", "MOUT lbl1 1; HALT; INCMP foo 1", "root"}, {"foo", "LOAD aa 0; MAP aa; HALT; INCMP _ 0", "foo {{.aa}}"}, {"end1", "HALT", "x"}, {"_catch", "HALT; INCMP _ *", "catch"}},
+		tplx: []kv{{"root_nor", "rot"}, {"foo_nor", "fu {{.aa}}"}, {"root_eng", "root-en"}, {"foo_eng", "foo-en {{.aa}}"}}, menu: []kv{{"lbl1_menu_nor", "til fu"}, {"lbl1_menu_eng", "to foo"}},
+		fn: map[string][]eFres{"aa": st1("v")}, cfg: eCfg{FlagCount: 1, Lang: "nor"}, inputs: []string{"", "1", "0"}},
 	{name: "abnormal-end", nodes: [][3]string{{"root", "HALT; INCMP foo 1", "root"}, {"foo", "LOAD aa 10", "foo"}, {"_catch", "HALT; INCMP _ *", "catch"}},
 		fn: map[string][]eFres{"aa": st1("v")}, cfg: eCfg{FlagCount: 2}, inputs: []string{"", "1", "", "1"}},
 	{name: "browse-past-end", nodes: [][3]string{{"root", "LOAD aa 0; MAP aa; MNEXT nxt 11; MPREV prv 22; HALT; INCMP > 11; INCMP < 22", "r {{.aa}}"}, {"_catch", "MOUT back 0; HALT; INCMP _ 0", "catch"}},
